@@ -20,7 +20,8 @@ RULE = ("Hypothesis-generated polygons of 3..12 vertices (thorough up to "
         "fractions.Fraction on the float coordinates; points closer than "
         "1e-6*size to the boundary are not judged (counted). Metamorphic: "
         "rotating/reversing/closing the vertex list, translating by dyadic "
-        "offsets and scaling by powers of two never change the answer; "
+        "offsets (up to 2^26: polygons far from the origin) and scaling by "
+        "powers of two never change the answer; "
         "cells_inside_polygon returns exactly the cells whose centre the "
         "oracle puts inside. Non-trivial = a judged point level with a "
         "vertex, or a non-convex / self-intersecting polygon.")
@@ -98,8 +99,12 @@ def cases(draw, tier):
             "close": draw(st.booleans()),
             "rot": draw(st.integers(0, nv - 1)),
             "rev": draw(st.booleans()),
-            "shift": [draw(st.sampled_from([0., 1., -8., 0.5, 1024.])),
-                      draw(st.sampled_from([0., -1., 16., 0.25]))],
+            # dyadic offsets up to 2^26 (UTM-like: the polygon is tiny
+            # compared with its distance to the origin)
+            "shift": [draw(st.sampled_from([0., 1., -8., 0.5, 1024.,
+                                            2.0**20, 2.0**26, -2.0**24])),
+                      draw(st.sampled_from([0., -1., 16., 0.25, 2.0**22,
+                                            -2.0**26, 2.0**26]))],
             "scale": draw(st.sampled_from([1., 2., 0.5, 1024., 2.0**-10])),
             "grid": [draw(st.integers(1, 8)), draw(st.integers(1, 8)),
                      draw(st.sampled_from([1., 0.5, 2.])),
